@@ -18,6 +18,7 @@ import (
 	"fmt"
 	"math/big"
 	"os"
+	"path/filepath"
 	"sort"
 	"strings"
 
@@ -37,6 +38,10 @@ import (
 var fip20 = contract.GetFIP20().ABI
 
 func main() {
+	if len(os.Args) > 1 && os.Args[1] == "-facts" {
+		writeFacts()
+		return
+	}
 	seed := lib.Seed()
 	mode := os.Getenv("VERIF_MODE")
 	rep := lib.NewReport("C08")
@@ -179,6 +184,18 @@ func exportRebuilds() bool {
 	probeNote = fmt.Sprintf("code fact probed on the real application: InitGenesis rebuilds the erc20 alias index from the bank metadata = %v (%d of %d aliases found after export + import: one set at registration, the others by UpdateDenomAlias on the coin and on FX%s)",
 		res, n, len(want), map[bool]string{true: "", false: "; missing " + strings.Join(missing, ", ")}[len(missing) == 0])
 	return res
+}
+
+// writeFacts (`c08 -facts`, declared under "gen" in checks/C08.json): the probed code fact as a generated Coq file, so that
+// the theorems about THIS tree (Prop_C08: C08_tree_rebuilds_alias_index, C08_indexes_on_tree) break when the fact changes.
+func writeFacts() {
+	v := exportRebuilds()
+	src := "(* generated by `harness/c08 -facts` from the tree under test (probe executed on the REAL application: a chain of its\n" +
+		"   own, aliases set at registration / by UpdateDenomAlias on a coin and on FX, real genesis export + InitChain of a new\n" +
+		"   application, GetAliasDenom of each); do not edit *)\n" +
+		"(* " + probeNote + " *)\n" +
+		"Definition gen_alias_index_rebuilt : bool := " + lib.Bool(v) + ".\n"
+	lib.Must(os.WriteFile(filepath.Join(lib.OutDir(), "Gen_C08Facts.v"), []byte(src), 0o644))
 }
 
 func lifecycleHistories() []*IHistory {
